@@ -128,7 +128,15 @@ def materialise(op, sandbox, opno=0):
                 key = hashlib.sha1(repr((spec["columns"], spec["rows"], spec.get("dtypes"))).encode()).hexdigest()[:12]
                 p = os.path.join(sandbox.inp, "%s_%s.parquet" % (name, key))
                 if not os.path.exists(p):
-                    _mk_df(spec).to_parquet(p, index=False)
+                    df = _mk_df(spec)
+                    # whole-number columns with nulls are written as nullable integers (what a typed producer
+                    # writes), not as the floats pandas would infer
+                    for col in df.columns:
+                        vals = [v for v in df[col].tolist() if v is not None and v == v]
+                        if vals and len(vals) < len(df) and all(isinstance(v, (int, float)) and not isinstance(v, bool) and float(v).is_integer() for v in vals) \
+                                and all(isinstance(r[list(df.columns).index(col)], int) or r[list(df.columns).index(col)] is None for r in spec["rows"]):
+                            df[col] = df[col].astype("Int64")
+                    df.to_parquet(p, index=False)
                 dps[name] = Path(p)
             elif k == "url":
                 dps[name] = spec["url"]
@@ -144,6 +152,10 @@ def materialise(op, sandbox, opno=0):
             kw[k] = copy.deepcopy(v)
     if op.get("output_folder"):
         kw["output_folder"] = Path(sandbox.new_out())
+        if op.get("output_folder") == "is-a-file":
+            # a regular file where the output folder should be: every write into it fails
+            with open(kw["output_folder"], "w") as f:
+                f.write("not a directory\n")
     if api in ("prettify", "create_ast"):
         kw = {"script": op["script"]} if api == "prettify" else {"text": op["script"]}
     if api == "validate_dataset":
